@@ -2,15 +2,9 @@ import NetVerif.Proofs.C01
 import NetVerif.Proofs.C03
 /-!
 C01, continued — the round trip does not depend on how a block's bytes are cut into
-`Decoder.Write` calls (HEADERS / CONTINUATION fragments), by C03's split independence.
-
-`block_any_chunking_ideal`: for the decoder without the saveBuf bound of `Write` (C03's "ideal"
-decoder) every partition of the block's bytes gives the result of the one-Write-per-field run that
-`roundtrip_history_holds_partial` is about.
-`block_any_chunking_partial`: the same for the decoder as it is, under the explicit hypothesis that
-the saveBuf bound (C03's finding) does not fire on that partition. (With no string length limit —
-the configuration of C01 — the bound is disabled in the code, `d.maxStrLen != 0 && …`; that this makes
-the hypothesis redundant is NOT proved here.)
+`Decoder.Write` calls (HEADERS / CONTINUATION fragments): C03's split independence
+(`Proofs.C03.write_split`, unconditional since the saveBuf bound was repaired) carries the
+one-Write-per-field result of `Proofs.C01.block_sim` to every partition of the same bytes.
 -/
 namespace NetVerif.Proofs.C01
 open NetVerif.Model.Hpack NetVerif.Model.HpackEnc
@@ -19,40 +13,22 @@ open NetVerif.Proofs.Lemmas.Hpack
 open NetVerif.Model
 open NetVerif
 
-theorem block_any_chunking_ideal (A : Nat) (hA : A ≤ uint32Max) (s : Sys) (b : Block) (hb : Between A s)
-    (hf : ∀ f ∈ b.fields, FieldOK f) (hl : ∀ v, SizeOp.setLimit v ∈ b.pre → v ≤ A)
-    (hreg : b.fields ≠ [] → hitsDefect (b.pre.foldl Encoder.sizeOp s.enc) s.dec.toDecCore = false)
-    (cs : List Bytes) (hflat : cs.flatten = (s.enc.encodeBlock b).2.flatten) :
-    runWritesG false s.dec cs = runWrites s.dec (s.enc.encodeBlock b).2 ∧
-      (runWrites s.dec (s.enc.encodeBlock b).2).2 = (b.fields, none) := by
-  have hblk := (block_sim A hA s b hb hf hl hreg).1
-  have hres : (runWrites s.dec (s.enc.encodeBlock b).2).2 = (b.fields, none) := hblk
-  have hnone : (runWrites s.dec (s.enc.encodeBlock b).2).2.2 ≠ some .strLenParanoia := by
-    rw [hres]; simp
-  refine ⟨?_, hres⟩
-  rw [← Proofs.C03.runWrites_real_ideal s.dec _ hnone,
-    Proofs.C03.write_split_ideal s.dec cs hb.save,
-    Proofs.C03.write_split_ideal s.dec (s.enc.encodeBlock b).2 hb.save, hflat]
-
-/-- **Any fragmentation of the block** (decoder as it is; `_partial`: assumes the saveBuf bound of
-`Decoder.Write` does not fire on this partition). -/
-theorem block_any_chunking_partial (A : Nat) (hA : A ≤ uint32Max) (s : Sys) (b : Block) (hb : Between A s)
-    (hf : ∀ f ∈ b.fields, FieldOK f) (hl : ∀ v, SizeOp.setLimit v ∈ b.pre → v ≤ A)
-    (hreg : b.fields ≠ [] → hitsDefect (b.pre.foldl Encoder.sizeOp s.enc) s.dec.toDecCore = false)
-    (cs : List Bytes) (hflat : cs.flatten = (s.enc.encodeBlock b).2.flatten)
-    (hnp : (runWrites s.dec cs).2.2 ≠ some .strLenParanoia) :
-    (runWrites s.dec cs).2 = (b.fields, none) ∧
-      (runWrites s.dec cs).1 = (runWrites s.dec (s.enc.encodeBlock b).2).1 := by
-  obtain ⟨h1, h2⟩ := block_any_chunking_ideal A hA s b hb hf hl hreg cs hflat
-  rw [Proofs.C03.runWrites_real_ideal s.dec cs hnp] at h1
-  rw [h1]
-  exact ⟨h2, rfl⟩
-
-/-- The full statement the `_partial` theorem approximates. -/
+/-- The statement: any partition `cs` of the block's bytes decodes to the block's fields. -/
 def BlockAnyChunkingStatement : Prop :=
   ∀ (A : Nat) (s : Sys) (b : Block) (cs : List Bytes), A ≤ uint32Max → Between A s →
     (∀ f ∈ b.fields, FieldOK f) → (∀ v, SizeOp.setLimit v ∈ b.pre → v ≤ A) →
-    (b.fields ≠ [] → hitsDefect (b.pre.foldl Encoder.sizeOp s.enc) s.dec.toDecCore = false) →
-    cs.flatten = (s.enc.encodeBlock b).2.flatten → (runWrites s.dec cs).2 = (b.fields, none)
+    cs.flatten = (s.enc.encodeBlock b).2.flatten →
+      (runWrites s.dec cs).2 = (b.fields, none) ∧
+      (runWrites s.dec cs).1 = (runWrites s.dec (s.enc.encodeBlock b).2).1
+
+/-- **Any fragmentation of a block** gives the decoder state, the emitted fields and the (absent)
+error of the one-Write-per-field run. -/
+theorem block_any_chunking : BlockAnyChunkingStatement := by
+  intro A s b cs hA hb hf hl hflat
+  have hres : (runWrites s.dec (s.enc.encodeBlock b).2).2 = (b.fields, none) := (block_sim A hA s b hb hf hl).1
+  have h1 : runWrites s.dec cs = runWrites s.dec (s.enc.encodeBlock b).2 := by
+    rw [Proofs.C03.write_split s.dec cs hb.save, Proofs.C03.write_split s.dec (s.enc.encodeBlock b).2 hb.save, hflat]
+  rw [h1]
+  exact ⟨hres, rfl⟩
 
 end NetVerif.Proofs.C01
